@@ -274,6 +274,20 @@ func (fr *frame) call(c *ssa.CallCommon, instr ssa.Value, st *state, pos string)
 	if b, ok := c.Value.(*ssa.Builtin); ok {
 		return fr.builtin(b, c, instr, st, pos)
 	}
+	if !fr.inline && len(fr.fn.Blocks) == 1 {
+		if callee := c.StaticCallee(); callee != nil {
+			k := 0
+			if callee.Signature.Recv() != nil {
+				k = 1
+			}
+			if len(c.Args) > k {
+				if fr.callLog == nil {
+					fr.callLog = map[string][]T{}
+				}
+				fr.callLog[callee.Name()] = append(fr.callLog[callee.Name()], fr.val(c.Args[k]))
+			}
+		}
+	}
 	if fr.fc != nil && fr.fc.GuardLock != "" && !fr.inline {
 		if n := callName(c); n != "" {
 			for _, g := range fr.fc.GuardNames {
@@ -618,7 +632,7 @@ func (fr *frame) modularCall(fc *FuncContract, callee *ssa.Function, c *ssa.Call
 	}
 	envPost := &Env{vc: vc, fr: fr, pkg: pkgOf(callee), vars: postVars, varAddrs: addrs, st: st, old: pre, next0: pre.next, calleeScope: true, cbs: cbMap(fc)}
 	for _, en := range fc.Ensures {
-		if en.Local || (!vc.logWrites && strings.Contains(en.Src, "wrote(")) {
+		if en.Local || (!vc.logWrites && strings.Contains(en.Src, "wrote(")) || strings.Contains(en.Src, "callarg(") || strings.Contains(en.Src, "ncalls(") {
 			// content-of-stream clauses are used only by callers whose own contract talks about stream content
 			continue
 		}
@@ -839,7 +853,7 @@ func (fr *frame) closureAxiom(fn *ssa.Function, cv *closureVal, id string, st *s
 		pre = append(pre, env.evalBool(rq.E))
 	}
 	for _, en := range fc.Ensures {
-		if en.Local {
+		if en.Local || strings.Contains(en.Src, "callarg(") || strings.Contains(en.Src, "ncalls(") {
 			continue
 		}
 		post = append(post, env.evalBool(en.E))
